@@ -8,6 +8,7 @@ from ..cfg import CFG
 from ..model import FuncInfo, Repo
 from ..report import Report
 from ..util import parent_map, AnalysisError, call_name, chain, names_loaded, norm, short, walk_body
+from .compiled import shape_of
 from .c02 import _is_zero_bytes_times, node_calls
 from .c04 import calculator_rule
 
@@ -246,6 +247,7 @@ def proxy_cover_rule(repo: Repo, rep: Report, rid: str) -> None:
     rep.floor(rid, "proxy conditions", n, 1)
 
 
+@shape_of("layout")
 def size_rule(repo: Repo, rep: Report, rid: str) -> None:
     rep.rule(rid, "a union has the size of its largest member rounded up to its alignment; dumping pads to len(union) with zeros")
     fi = repo.func("types/structure.py", "UnionMetaType._write")
